@@ -94,6 +94,19 @@ CHECKS["C15"] = dict(
     ref="4/C15",
 )
 
+CHECKS["C12"] = dict(
+    technique="round-trip oracle on real objects: str(template) must re-parse, behave identically on several data sets (output or error class) and reach a textual fixpoint within two iterations; pickle round trip likewise; mechanism keys from the first token-stream divergence",
+    text="Exploration: ~1.4e4 (quick) / 1.4e5 (thorough) round trips and ~4.7e3 pickles over all valid corpus templates (root and partials), ~1.8e4 deterministic tiny units (every primitive form x expression site, filter-argument shapes, Boolean trees, every whitespace-control combination under three default_trim settings, tag options) and seeded random compositions over the built-in and Shopify tag sets; 57 node/expression classes serialised.",
+    note="Trusted: the token-stream normalisation used for keys (spellings str() may change: quote style, optional commas, number spelling). Behaviour is compared on 3-5 concrete data sets, sync rendering.",
+    ref="4/C12",
+)
+CHECKS["C20"] = dict(
+    technique="encode/decode oracle: an independent encoder produces every valid spelling of a target string / number, the real engine evaluates it at 103 literal sites and the decoded value is compared with the target (relational negative controls); json output decoded with json.loads",
+    text="Exploration with bounded-exhaustive sub-spaces: ~9.5e5 (quick) / 1.45e7 (thorough) evaluations: all spellings of U+0008..U+00FF at every site, BMP sweep, all surrogate-block boundaries, all 1464 strings of length <= 3 over the adversarial alphabet, random strings up to 8 code points, single/double quotes, 72 string sites and 24 number sites (ints to 10**40, e/E/e+ exponents, float spellings), 7 json variants incl. auto-escape.",
+    note="Trusted: the encoder (it only emits spellings the documented grammar allows; rejected spellings are counted, not judged). Floats are judged against the correctly rounded double.",
+    ref="4/C20",
+)
+
 NOT_YET = {}
 
 def main():
